@@ -4621,7 +4621,12 @@ func (n *FlowSpecNLRI) decodeFromBytes(data []byte, options ...*MarshallingOptio
 	}
 	var length int
 	if data[0]>>4 == 0xf && len(data) > 2 {
-		length = int(binary.BigEndian.Uint16(data[:2]))
+		// RFC 8955 4.1: 0xfnnn, the length is the low 12 bits
+		length = int(binary.BigEndian.Uint16(data[:2]) & 0x0fff)
+		if length < 0xf0 {
+			// lengths below 240 are encoded on a single octet; Len() relies on it
+			return malformedAttrListErr("flowspec length below 240 in the two-octet form")
+		}
 		data = data[2:]
 	} else if len(data) > 1 {
 		length = int(data[0])
@@ -4743,7 +4748,8 @@ func (n *FlowSpecNLRI) Serialize(options ...*MarshallingOption) ([]byte, error) 
 	} else {
 		length -= 2
 		b := make([]byte, 2)
-		binary.BigEndian.PutUint16(buf, uint16(length))
+		// RFC 8955 4.1: 2-octet form 0xfnnn
+		binary.BigEndian.PutUint16(b, 0xf000|uint16(length))
 		buf = append(b, buf...)
 	}
 	return buf, nil
